@@ -195,3 +195,20 @@ def c05_5(cx):
     cold = cx.fn(r"^function::maybe_changed_after::<impl function::IngredientImpl<C>>::maybe_changed_after_cold$")
     ex = cx.one_call(cold, r"execute::<impl function::IngredientImpl<C>>::execute$", "execute in maybe_changed_after_cold")
     cx.only_if(cold, ex, VariantIn(r"downcast\(.*\)\.value$", {"Some"}, desc="old_memo.value is Some"), "an evicted (value-less) memo is not re-executed during verification")
+
+
+@ob("C04.5", ["C04", "C12"], "the edges of a provisional callee are flattened into the cycle head and the edge to the callee itself is dropped; if the callee read untracked state nothing re-validates it for the head in later revisions: the head (and everything depending on it) keeps a value computed from the old untracked state (finding F6)", kind="ONLYIF (untrackedness survives flattening)")
+def c04_5(cx):
+    """Either the flattening walker consults the expanded callee's origin kind (DerivedUntracked) and passes it on, or fetch lets the reader of a provisional DerivedUntracked memo inherit the untracked read. On today's tree neither exists: known finding F6 (findings/F6/demo_f6.rs; a repair through fetch makes the demo pass but changes the behaviour pinned by tests/cycle_left_recursive_query.rs and tests/cycle_dependency_order_different_entry_queries.rs, so it is recorded, not fixed)."""
+    w = cx.fn(r"^function::flatten_cycle_head_dependencies$")
+    consults = bool(w.calls(r"is_derived_untracked$"))
+    for s in w.all_sites():
+        n = s.node()
+        if not s.is_term() and n["k"] == "assign" and n["rv"]["k"] == "discr" and "QueryOriginRef" in (n["rv"].get("adt") or ""):
+            consults = True
+    f = cx.fn(r"^function::fetch::<impl function::IngredientImpl<C>>::fetch$")
+    inherits = False
+    for s in f.calls(r"ZalsaLocal::report_untracked_read$"):
+        inherits = True
+    rec = cx.one_call(w, r"^ingredient::Ingredient::flatten_cycle_head_dependencies$", "expansion of a provisional callee")
+    cx.check(consults or inherits, "the untracked read of a flattened provisional callee reaches the cycle head's origin", rec, {"walker_consults_origin_kind": consults, "fetch_inherits_untracked": inherits}, key="untracked-lost-in-flattening")
